@@ -23,6 +23,8 @@ pub struct Job {
     pub clause: String,
     /// expected provider calls count, if the oracle constrains it
     pub expect_calls: Option<usize>,
+    /// for accepted requests: the access key and session token the provider must have been asked for
+    pub expect_provider: Option<(String, Option<String>)>,
 }
 
 pub struct Done {
@@ -216,6 +218,20 @@ pub fn run_jobs(ctx: &mut Ctx, op: &'static str, jobs: Vec<Job>) -> Vec<Done> {
             Expect::Refuse(Some(k)) => v.class != format!("ERR {}", k),
         };
         let bad_calls = job.expect_calls.map(|n| v.calls.len() != n).unwrap_or(false);
+        if let (Some((ak, tok)), true) = (&job.expect_provider, ok) {
+            if v.calls.len() != 1 || v.calls[0].access_key != *ak || v.calls[0].token != *tok {
+                ctx.rep.fail(Failure {
+                    kind: "ORACLE",
+                    op: op.to_string(),
+                    class: format!("{}-provider-view", job.class),
+                    input: line.clone(),
+                    imp: v.calls.iter().map(|c| c.show()).collect::<Vec<_>>().join(" "),
+                    model: ml.clone(),
+                    spec: format!("access key {} token {:?}", ak, tok),
+                    clause: format!("the key provider was not asked for the access key / session token the request is signed with — {}", job.case.describe()),
+                });
+            }
+        }
         if bad || bad_calls {
             ctx.rep.fail(Failure {
                 kind: "ORACLE",
@@ -234,7 +250,15 @@ pub fn run_jobs(ctx: &mut Ctx, op: &'static str, jobs: Vec<Job>) -> Vec<Done> {
 }
 
 pub fn job(case: Case, expect: Expect, class: &str, clause: &str) -> Job {
-    Job { case, expect, class: class.to_string(), clause: clause.to_string(), expect_calls: None }
+    Job { case, expect, class: class.to_string(), clause: clause.to_string(), expect_calls: None, expect_provider: None }
+}
+
+/// A job expecting acceptance of a reference-signed request, including what the provider must be asked.
+pub fn accept_job(s: &Signed, class: &str, clause: &str) -> Job {
+    let mut j = job(s.case.clone(), Expect::Accept, class, clause);
+    j.expect_calls = Some(1);
+    j.expect_provider = Some((s.expect_access_key.clone(), s.expect_token.clone()));
+    j
 }
 
 fn flip_hex_digit(c: u8) -> u8 {
@@ -272,7 +296,7 @@ pub fn c01(ctx: &mut Ctx) {
         let now = now_for(&l, rng.range(-600, 600) as i128 * 1_000_000_000);
         let s = sign_and_spell(&l, &mut rng, &sp, now);
         let must = "C01: accepted although the presented signature is not HMAC(key, string-to-sign of the request as received)";
-        jobs.push(job(s.case.clone(), Expect::Accept, "c01-valid", "C01/C02: a reference-signed request was refused"));
+        jobs.push(accept_job(&s, "c01-valid", "C01/C02: a reference-signed request was refused"));
         if ctx.rep.samples.len() < 4 {
             ctx.rep.sample(format!("base: {}", s.case.describe()));
         }
@@ -462,7 +486,7 @@ pub fn c02(ctx: &mut Ctx) {
             if l.fold && l.form.is_some() {
                 ctx.rep.count("gen.folded");
             }
-            jobs.push(job(s.case, Expect::Accept, &class, clause));
+            jobs.push(accept_job(&s, &class, clause));
         }
         if jobs.len() > 4000 {
             run_jobs(ctx, "VALIDATE", std::mem::take(&mut jobs));
@@ -508,6 +532,7 @@ pub fn simple_logical(carrier: Carrier, time_ns: i128) -> Logical {
         fold: false,
         dup_date: None,
         scope_date_override: None,
+        decoys: false,
     }
 }
 
@@ -1079,6 +1104,35 @@ pub fn c19(ctx: &mut Ctx) {
             c2.body = String::from_utf8_lossy(&c2.body).replace(&bad_sig, &sq.signature).into_bytes();
             if c2.uri != sq.case.uri {
                 jobs.push(job(c2, Expect::Refuse(Some("SignatureDoesNotMatch")), "c19-folded-repeats", "C19: a signature that occurs only later (in the folded body) must not be the one authenticated"));
+            }
+        }
+        // (d') header carrier: a security-token *query parameter* next to the token header — the header's
+        // (first) token is the one given to the provider; and the mirror image for the query carrier
+        {
+            let mut l6 = l.clone();
+            l6.token = Some("HEADERTOKEN".into());
+            l6.query.push((b"X-Amz-Security-Token".to_vec(), b"QUERYTOKEN".to_vec()));
+            let s6 = sign_and_spell(&l6, &mut rng, &Spelling::plain(), now);
+            jobs.push(accept_job(&s6, "c19-cross-carrier-token", clause));
+            let mut l7 = l.clone();
+            l7.carrier = Carrier::Query;
+            l7.token = Some("QUERYTOKEN".into());
+            l7.headers.push(("X-Amz-Security-Token".into(), b"HEADERTOKEN".to_vec()));
+            let s7 = sign_and_spell(&l7, &mut rng, &Spelling::plain(), now);
+            jobs.push(accept_job(&s7, "c19-cross-carrier-token", clause));
+        }
+        // (f'') a later duplicate of a query-carrier parameter whose *name* is percent-spelled
+        {
+            let mut lq = l.clone();
+            lq.carrier = Carrier::Query;
+            let sq = sign_and_spell(&lq, &mut rng, &Spelling::plain(), now);
+            let mut c1 = sq.case.clone();
+            c1.uri = format!("{}&X%2DAmz%2DSignature={}", c1.uri, bad_sig);
+            jobs.push(job(c1, Expect::Accept, "c19-repeated-query-param-spelled", clause));
+            let mut c2 = sq.case.clone();
+            c2.uri = c2.uri.replace(&format!("X-Amz-Signature={}", sq.signature), &format!("X-Amz-Signature={}&X-Amz-%53ignature={}", bad_sig, sq.signature));
+            if c2.uri != sq.case.uri {
+                jobs.push(job(c2, Expect::Refuse(Some("SignatureDoesNotMatch")), "c19-repeated-query-param-spelled", clause));
             }
         }
         // (f) query carrier: repeated X-Amz-* parameter, the first value counts
